@@ -4,8 +4,8 @@ CONSTANTS
   NonceWin = 10
   AgeWin = 10
   MAXV = 1000000000
-  PragueFrom = 275000
-  Base = 0
+  PragueFrom = 923369
+  Base = 928994
 INVARIANT TraceInv
 POSTCONDITION TraceAccepted
 CHECK_DEADLOCK FALSE
